@@ -66,9 +66,9 @@ class Result:
         self.nontrivial.add(hashlib.sha1(json.dumps(case, sort_keys=True, default=str).encode()).hexdigest())
 
 
-def load_known():
+def load_known(prop):
     try:
-        with open(os.path.join(VERIF, 'known_findings.json')) as f:
+        with open(os.path.join(VERIF, 'known_findings', prop + '.json')) as f:
             return json.load(f)
     except OSError:
         return {'findings': [], 'fixed': []}
@@ -115,6 +115,7 @@ def main():
     # ---- A: translate + build ---------------------------------------------------------
     proof_notes = []
     build_ok = model_ok = True
+    driver_fallback = False
     audit = None
     if not args.no_build:
         import translate
@@ -126,11 +127,17 @@ def main():
             traceback.print_exc()
             print(f'translate failed: {e!r}')
             return 2
-        build_ok, log, dt = lean.build([root, 'driver'])
+        build_ok, log, dt = lean.build([root])
         if not build_ok:
             proof_notes.append('lake build failed:\n' + log[-6000:])
-            # can the driver alone still be built?
-            model_ok, log2, _ = lean.build(['driver'])
+        # the driver links the models of all properties; when another property's model is broken the last good
+        # binary is used (this property's model is unchanged in it as long as its own proofs still build)
+        drv_ok, log2, _ = lean.build(['driver'])
+        driver_fallback = not drv_ok
+        model_ok = build_ok or drv_ok
+        if not drv_ok and build_ok:
+            proof_notes_drv = 'driver does not build (another model is broken); using the last good driver binary'
+            print('note:', proof_notes_drv)
         # ---- B: audit ---------------------------------------------------------------------
         if build_ok:
             audit = lean.audit(root)
@@ -149,7 +156,7 @@ def main():
 
     # ---- C + D ------------------------------------------------------------------------
     def explore(escalated):
-        ctx = Ctx(prop, args.tier, seed, escalated=escalated, driver_fallback=not model_ok, model_ok=model_ok)
+        ctx = Ctx(prop, args.tier, seed, escalated=escalated, driver_fallback=driver_fallback, model_ok=model_ok)
         return mod.run(ctx)
 
     try:
@@ -170,8 +177,8 @@ def main():
         return 2
 
     # ---- verdict ----------------------------------------------------------------------
-    known = load_known()
-    known_sigs = {f['signature']: f for f in known.get('findings', []) if f.get('property') == prop}
+    known = load_known(prop)
+    known_sigs = {f['signature']: f for f in known.get('findings', [])}
     new_viol, seen_known = [], {}
     for v in res.violations:
         if v['sig'] in known_sigs:
